@@ -905,9 +905,125 @@ fn grid() {
     out::count("grid_cells", n as i128);
 }
 
+/// Transfer magnitude: lengths at and around powers of two up to several MiB (chunked bulk
+/// copies, size-threshold fast paths) on an mmap-backed container, every byte-moving route.
+fn big_transfers(shard: (u64, u64)) {
+    let size = 6 * 1024 * 1024 + 13;
+    let a = Cont::mmap(size);
+    let b = Cont::mmap(size);
+    let pat = |i: usize, salt: u8| -> u8 { ((i ^ (i >> 8) ^ (i >> 16)) as u8).wrapping_mul(13).wrapping_add(salt) | 1 };
+    // SAFETY: both containers are live mappings of `size` bytes owned by this function.
+    let raw = |c: &Cont| -> &mut [u8] { unsafe { std::slice::from_raw_parts_mut(c.ptr(), size) } };
+    let mut lens: Vec<usize> = vec![];
+    for k in 16..=22usize {
+        lens.extend([(1usize << k) - 1, 1 << k, (1 << k) + 1]);
+    }
+    lens.extend([3 << 20, (3 << 20) + 4096, 4 << 20, (4 << 20) + 1, 6 << 20, size, size + 5]);
+    let sa = a.slice();
+    let sb = b.slice();
+    let mut n = 0u64;
+    for (li, &len) in lens.iter().enumerate() {
+        if (li as u64) % shard.1 != shard.0 {
+            continue;
+        }
+        for off in [0usize, 1, 4093] {
+            let fits = off + len <= size;
+            let moved = len.min(size - off);
+            for route in 0..7u8 {
+                // fresh state: container = pattern 1, source data = pattern 2
+                for (i, x) in raw(&a).iter_mut().enumerate() {
+                    *x = pat(i, 1);
+                }
+                let data: Vec<u8> = (0..len.min(size + 8)).map(|i| pat(i, 2)).collect();
+                let mut back = vec![0u8; data.len()];
+                let name;
+                let mut ok = true;
+                let expect_written = |n: usize| -> bool {
+                    let m = raw(&a);
+                    m[off..off + n] == data[..n] && m[..off].iter().enumerate().all(|(i, x)| *x == pat(i, 1)) && m[off + n..].iter().enumerate().all(|(i, x)| *x == pat(off + n + i, 1))
+                };
+                match route {
+                    0 => {
+                        name = "write/read";
+                        let w = sa.write(&data, off);
+                        ok &= w.as_ref().ok() == Some(&moved) && expect_written(moved);
+                        let rd = sa.read(&mut back, off);
+                        ok &= rd.as_ref().ok() == Some(&moved) && back[..moved] == data[..moved];
+                    }
+                    1 => {
+                        name = "write_slice/read_slice";
+                        let w = sa.write_slice(&data, off);
+                        ok &= w.is_ok() == fits && if fits { expect_written(len) } else { true };
+                        let rd = sa.read_slice(&mut back, off);
+                        ok &= rd.is_ok() == fits && (!fits || back == data);
+                    }
+                    2 => {
+                        name = "copy_from<u8>/copy_to<u8>";
+                        let sub = sa.offset(off).unwrap();
+                        sub.copy_from::<u8>(&data);
+                        ok &= expect_written(moved);
+                        let k = sub.copy_to::<u8>(&mut back);
+                        ok &= k == moved && back[..moved] == data[..moved];
+                    }
+                    3 => {
+                        name = "copy_to_volatile_slice";
+                        raw(&b).iter_mut().enumerate().for_each(|(i, x)| *x = pat(i, 3));
+                        let src = sa.offset(off).unwrap();
+                        let dst = sb.subslice(7, moved.min(size - 7)).unwrap();
+                        src.copy_to_volatile_slice(dst);
+                        let m = moved.min(size - 7);
+                        let mb = raw(&b);
+                        ok &= mb[7..7 + m] == raw(&a)[off..off + m] && mb[..7].iter().enumerate().all(|(i, x)| *x == pat(i, 3)) && mb[7 + m..].iter().enumerate().all(|(i, x)| *x == pat(7 + m + i, 3));
+                    }
+                    4 => {
+                        name = "read_volatile_from(&[u8])/write_volatile_to(Vec)";
+                        let mut src = &data[..];
+                        let k = sa.read_volatile_from(off, &mut src, len);
+                        ok &= k.as_ref().ok() == Some(&moved.min(data.len())) && expect_written(moved.min(data.len()));
+                        let mut sink: Vec<u8> = vec![];
+                        let k2 = sa.write_volatile_to(off, &mut sink, len);
+                        ok &= k2.as_ref().ok() == Some(&moved) && sink[..] == raw(&a)[off..off + moved];
+                    }
+                    5 => {
+                        name = "array<u8>.copy_from/copy_to";
+                        let arr = sa.get_array_ref::<u8>(off, moved).unwrap();
+                        arr.copy_from(&data);
+                        ok &= expect_written(moved.min(data.len()));
+                        let k = arr.copy_to(&mut back);
+                        ok &= k == moved.min(back.len()) && back[..k] == data[..k];
+                    }
+                    _ => {
+                        name = "copy_from<u64>/copy_to<u64>";
+                        let words: Vec<u64> = data.chunks_exact(8).map(|c| u64::from_ne_bytes(c.try_into().unwrap())).collect();
+                        let sub = sa.offset(off).unwrap();
+                        sub.copy_from::<u64>(&words);
+                        let nb = (words.len() * 8).min((size - off) / 8 * 8);
+                        ok &= expect_written(nb);
+                        let mut wb = vec![0u64; words.len()];
+                        let k = sub.copy_to::<u64>(&mut wb);
+                        ok &= k * 8 == nb && wb[..k] == words[..k];
+                    }
+                }
+                if !ok {
+                    v(&format!("big/{}/bytes-differ-from-model", name), jobj! {"len" => len, "off" => off, "container" => size});
+                }
+                out::key(&format!("big|{}|len2^{}{}|off{}", name, (usize::BITS - 1 - len.leading_zeros()), if len.is_power_of_two() { "" } else if (len + 1).is_power_of_two() { "-1" } else if (len - 1).is_power_of_two() { "+1" } else { "+" }, off.min(2)), true);
+                out::eval(1);
+                n += 1;
+            }
+        }
+    }
+    out::count("big_transfers", n as i128);
+}
+
 pub fn run(args: &Args) {
     out::set_quiet_cases(true);
     let (si, _) = args.shard();
+    if !cfg!(miri) && !args.flag("nobig") {
+        if let Err(p) = guarded(|| big_transfers(args.shard())) {
+            v(&format!("panic/big/{}", panic_sig(&p)), J::s(p));
+        }
+    }
     if si == 0 && !args.flag("nogrid") {
         if let Err(p) = guarded(grid) {
             v(&format!("panic/grid/{}", panic_sig(&p)), J::s(p));
